@@ -141,12 +141,25 @@ impl Prop for C02 {
                 let many = gen::many_char_set(&sample(&tapes, r), 10 + i % 5);
                 t = if i % 12 == 1 { cat(plus(many), opt(t)) } else { cat(t, star(many)) };
             }
+            if i % 6 == 4 {
+                // a `#` whose right side spans several pieces of its left side
+                let d = spanning_diff(&sample(&tapes, r));
+                t = if i % 12 == 4 { cat(plus(d), opt(t)) } else { cat(t, star(d)) };
+            }
             let mut s = simple_spec(vec![(t, None)], i % 3 == 0, vec![]);
             if i % 2 == 0 {
                 let tape = sample(&tapes, r);
                 gen::factor_lets(&mut s, &tape, 25);
             }
             out.push(("random-trees", s));
+        }
+        // (b'') trees over the end points of the classes real lexers use (0-9, A-F, A-Z, a-f, a-z,
+        // Latin-1 letters, punctuation after 'z'), sets of up to five items
+        let pr = crate::props::p_real().re;
+        let rstrat = gen::re_strategy(&pr);
+        for i in 0..tier.pick(400, 4000) {
+            let t = gen::fix_nullable(sample(&rstrat, r), 'a');
+            out.push(("real-alphabet-trees", simple_spec(vec![(t, None)], i % 2 == 0, vec![])));
         }
         // (b') the same over multi-byte / wide / zero-width characters (strings, sets, ranges)
         let mut pu = ReParams::basic(&['a', 'é', 'λ', '→', '京', '💝', '\u{301}', 'z']);
@@ -412,6 +425,36 @@ fn probe_chars(cls: &Cls, r: &mut TestRunner, n_random: usize) -> Vec<char> {
     v
 }
 
+
+/// `[p1 p2 … pk] # [s-e]` where the removed range starts inside one piece of the left side and
+/// ends inside a later one, or equals / covers pieces exactly; optionally chained.
+pub fn spanning_diff(t: &[u32]) -> Re {
+    let mut tp = gen::Tape::new(t);
+    let mut pieces: Vec<(u32, u32)> = vec![];
+    let mut x = 0x30 + tp.next(0x30);
+    for _ in 0..(2 + tp.next(4)) {
+        let len = tp.next(6);
+        pieces.push((x, x + len));
+        x += len + 2 + tp.next(5);
+    }
+    let ch = |v: u32| char::from_u32(v).unwrap_or('a');
+    let left = Re::Set(pieces.iter().map(|&(a, b)| if a == b { SetItem::C(ch(a)) } else { SetItem::R(ch(a), ch(b)) }).collect());
+    let pi = tp.next(pieces.len() as u32 - 1) as usize;
+    let pj = pi + 1 + tp.next((pieces.len() - pi - 1) as u32) as usize;
+    let (s, e) = match tp.next(4) {
+        0 => (pieces[pi].0 + tp.next(pieces[pi].1 - pieces[pi].0 + 1), pieces[pj].0 + tp.next(pieces[pj].1 - pieces[pj].0 + 1)),
+        1 => (pieces[pi].0, pieces[pj].1),
+        2 => (pieces[pi].0.saturating_sub(1), pieces[pj].1 + 1),
+        _ => (pieces[pi].1, pieces[pj].0),
+    };
+    let removed = Re::Set(vec![SetItem::R(ch(s), ch(e.max(s)))]);
+    let mut d = gen::mk_diff(left, removed);
+    if tp.next(2) == 1 {
+        d = gen::mk_diff(d, Re::Set(vec![SetItem::R(ch(pieces[0].0), ch(pieces[0].1))]));
+    }
+    d
+}
+
 // ---------------------------------------------------------------------------------------------
 // C11 part (b)
 
@@ -472,28 +515,8 @@ impl Prop for C11b {
                 // later one, or equals a piece, or covers several pieces entirely; chained
                 let t = sample(&tapes, r);
                 let mut tp = gen::Tape::new(&t);
-                let mut pieces: Vec<(u32, u32)> = vec![];
-                let mut x = 0x30 + tp.next(0x30);
-                for _ in 0..(2 + tp.next(4)) {
-                    let len = tp.next(6);
-                    pieces.push((x, x + len));
-                    x += len + 2 + tp.next(5);
-                }
-                let ch = |v: u32| char::from_u32(v).unwrap_or('a');
-                let left = Re::Set(pieces.iter().map(|&(a, b)| if a == b { SetItem::C(ch(a)) } else { SetItem::R(ch(a), ch(b)) }).collect());
-                let pi = tp.next(pieces.len() as u32 - 1) as usize;
-                let pj = pi + 1 + tp.next((pieces.len() - pi - 1) as u32) as usize;
-                let (s, e) = match tp.next(4) {
-                    0 => (pieces[pi].0 + tp.next(pieces[pi].1 - pieces[pi].0 + 1), pieces[pj].0 + tp.next(pieces[pj].1 - pieces[pj].0 + 1)),
-                    1 => (pieces[pi].0, pieces[pj].1),
-                    2 => (pieces[pi].0.saturating_sub(1), pieces[pj].1 + 1),
-                    _ => (pieces[pi].1, pieces[pj].0),
-                };
-                let removed = Re::Set(vec![SetItem::R(ch(s), ch(e.max(s)))]);
-                let mut d = gen::mk_diff(left, removed);
-                if tp.next(2) == 1 {
-                    d = gen::mk_diff(d, Re::Set(vec![SetItem::R(ch(pieces[0].0), ch(pieces[0].1))]));
-                }
+                let d = spanning_diff(&t);
+                let _ = tp.next(2);
                 c = if tp.next(3) == 0 { alt(d, c) } else { d };
             } else if i % 5 == 2 {
                 // ten or more individually listed characters (no ranges)
@@ -800,8 +823,10 @@ impl Prop for C13 {
         };
         let shape = shape_of(&ctx.spec);
         let name = c13_name_of(&ctx.spec).unwrap_or_default();
-        match shape {
-            Shape::AcceptArms | Shape::Alone => {
+        let per_char = matches!(shape, Shape::AcceptArms | Shape::Alone)
+            && models[0].trace.a.items.len() == v[0].input.chars().count();
+        match per_char {
+            true => {
                 // one item per character
                 let chars: Vec<char> = v[0].input.chars().collect();
                 if t.a.items.len() != chars.len() {
@@ -841,7 +866,7 @@ impl Prop for C13 {
                 }
                 Verdict::Ok { nontrivial: true }
             }
-            _ => {
+            false => {
                 let facet = Facet {
                     locs: false,
                     log: false,
